@@ -784,16 +784,16 @@ pub fn parse_case(cls: &str, id: &str, text: &str, ast: Option<&Iface>, stats: &
     ev(e);
 }
 
-/// One C14 case: a description built through the public constructors is rendered by zlink, the
-/// text is lexed (for the specification) and parsed back by zlink; the result is rendered again.
-pub fn render_case(form: &str, id: &str, a: &Iface, z: &idl::Interface<'_>, stats: &mut Stats) {
+/// What happens to a zlink `Interface` when it is rendered, lexed (for the specification), parsed
+/// back by zlink, rendered again, and sent through the GetInterfaceDescription form.
+/// Returns (observation as a JSON object, rendered text, accepted).
+pub fn render_obs(z: &idl::Interface<'_>) -> (Value, String, bool) {
     let r = std::panic::catch_unwind(std::panic::AssertUnwindSafe(|| z.to_string()));
     let text = match r {
         Ok(t) => t,
         Err(_) => {
-            ev(json!({"ev":"render","form":form,"id":id,"ast":a,"toks":[],"accepted":false,"panicked":true,"canon":[],
-                      "eq":false,"text2_same":false,"wire_same":false,"commented_enum":a.has_commented_enum(),"text":""}));
-            return;
+            return (json!({"toks":[],"accepted":false,"panicked":true,"canon":[],"eq":false,"text2_same":false,
+                           "wire_same":false,"text":""}), String::new(), false);
         }
     };
     let toks = lex(&text);
@@ -810,7 +810,6 @@ pub fn render_case(form: &str, id: &str, a: &Iface, z: &idl::Interface<'_>, stat
     let wire_same = std::panic::catch_unwind(std::panic::AssertUnwindSafe(|| {
         let d = zlink_core::varlink_service::InterfaceDescription::from(z);
         let js = serde_json::to_string(&d).unwrap();
-        // also through zlink's own serializer (what a no_std service would use)
         let back: zlink_core::varlink_service::InterfaceDescription<'static> = match serde_json::from_str(&js) {
             Ok(b) => b,
             Err(_) => return false,
@@ -822,14 +821,26 @@ pub fn render_case(form: &str, id: &str, a: &Iface, z: &idl::Interface<'_>, stat
         same
     }))
     .unwrap_or(false);
+    (json!({"toks":toks,"accepted":accepted,"panicked":panicked,"canon":canon2,"eq":eq,"text2_same":text2_same,
+            "wire_same":wire_same,"text":text}), text, accepted)
+}
+
+/// One C14 case: a description built through the public constructors is rendered by zlink, the
+/// text is lexed (for the specification) and parsed back by zlink; the result is rendered again.
+pub fn render_case(form: &str, id: &str, a: &Iface, z: &idl::Interface<'_>, stats: &mut Stats) {
+    let (mut e, text, accepted) = render_obs(z);
     stats.cases += 1;
     if accepted {
         stats.accepted += 1;
     }
     *stats.by_class.entry(form.to_string()).or_default() += 1;
     stats.distinct.insert(hash_str(&text));
-    ev(json!({"ev":"render","form":form,"id":id,"ast":a,"toks":toks,"accepted":accepted,"panicked":panicked,"canon":canon2,
-              "eq":eq,"text2_same":text2_same,"wire_same":wire_same,"commented_enum":a.has_commented_enum(),"text":text}));
+    e["ev"] = json!("render");
+    e["form"] = json!(form);
+    e["id"] = json!(id);
+    e["ast"] = serde_json::to_value(a).unwrap();
+    e["commented_enum"] = json!(a.has_commented_enum());
+    ev(e);
 }
 
 // ------------------------------------------------------------------ generators
